@@ -85,6 +85,7 @@ DEFAULT_PROJECT_FLAGS = {
     'recursion': True,         # RECURSIVE self calls and 2-cycles
     'dup_local_names': True,   # same procedure name in different modules
     'header_modules': True,    # modules with only types/globals
+    'unused_imports': True,    # qualified import of a subroutine that is never called (no dependency)
     'subdirs': True,
     'suffix_mix': True,        # .F90 and .f90
     # features behind gates (known findings / behaviour the docs leave open)
@@ -828,6 +829,19 @@ def gen_project(rng, flags=None):
                     if local not in p.globals_used:
                         p.globals_used.append(local)
                     feats.add('global_import')
+
+    # imported but never called subroutines (not a dependency: "dependencies on subroutines are introduced via calls")
+    if F['unused_imports']:
+        for p in P.procs:
+            for u in p.uses:
+                if u.only is not None and u.module in P.modules and rng.random() < 0.15:
+                    cands = [q for q in P.modules[u.module].procs if not q.is_function and not q.bound_type
+                             and q.name not in visible_names(p) and q.name not in dup_names
+                             and not any(r == q.name for _, r in u.only)]
+                    if cands:
+                        q = rng.choice(cands)
+                        u.only.append((q.name, q.name))
+                        feats.add('unused_subroutine_import')
 
     if F['globals'] and F['module_level_imports']:
         for m in modlist:
